@@ -41,7 +41,7 @@ POISONS = (7777, -3)
 def plan(tier, seed):
     shards = []
     if tier == "quick":
-        dshapes = [(2, 2), (2, 3), (3, 2), (3, 3), (2, 4), (4, 2), (3, 4), (4, 3), (4, 4)]
+        dshapes = [(2, 2), (2, 3), (3, 2), (3, 3), (2, 4), (4, 2), (3, 4), (4, 3), (4, 4), (3, 6), (6, 3)]
         vts = [seed % 2, 2]            # (0 or 1) and the equal-to-threshold triple
         sshapes = [(2, 2), (2, 3), (3, 2), (3, 3), (2, 4), (4, 2)]
         big = [2, 3, 4, 5, 6, 7, 8, 9, 127, 128, 129, 181, 182, 256]
@@ -71,6 +71,7 @@ def plan(tier, seed):
         shards.append(("catalogue", shp))
     for c in range(8):
         shards.append(("sched", c, 8, tier))
+    shards.append(("sparsescan", tier))
     # visit order depends on the seed (results do not)
     k = seed % max(1, len(shards))
     return shards[k:] + shards[:k]
@@ -146,6 +147,8 @@ def _run_dense(desc):
     sh = Shard()
     li = labelimage.labelimage(shp, fileout=io.StringIO(), sptfile=io.StringIO())
     n = shp[0] * shp[1]
+    if n > 16:
+        vts = vts[:1]          # the 18-pixel shapes with one threshold convention (still every image, both connectivities)
     for x in range(lo, hi):
         m = _bits(x, n, shp)
         for vt in vts:
@@ -385,7 +388,71 @@ def _run_sched(desc):
     return sh
 
 
+def _run_sparsescan(desc):
+    """SparseScan.cplabel labels a stack of sparse frames stored in HDF5 (the segmenter's output): every frame must be the connected
+    components of its above-threshold pixels, background 0 for listed-but-below pixels, labels continuing (countall) or restarting"""
+    _, tier = desc
+    import h5py, shutil
+    from ImageD11 import sparseframe as sf
+    sh = Shard()
+    wd = os.path.join(os.path.dirname(os.path.dirname(os.path.dirname(os.path.abspath(__file__)))), ".work", "c11_ss_%d" % os.getpid())
+    os.makedirs(wd, exist_ok=True)
+    try:
+        shp = (3, 4)
+        n = 12
+        pw = 3 ** np.arange(n)
+        codes_all = [0, 5, 364, 531440, 88573, 265720, 29524, 123456, 400000, 7]
+        for stack_id, codes in enumerate(itertools.permutations(codes_all, 3) if tier == "thorough" else
+                                         [c for k_, c in enumerate(itertools.permutations(codes_all, 3)) if k_ % 9 == 0]):
+            terns = [((c // pw) % 3).reshape(shp) for c in codes]
+            rows, cols, vals, nnz = [], [], [], []
+            for t in terns:
+                ii, jj = np.nonzero(t > 0)
+                rows.append(ii); cols.append(jj); vals.append(np.where(t[ii, jj] == 2, 9.0, 3.0)); nnz.append(len(ii))
+            fn = os.path.join(wd, "s.h5")
+            with h5py.File(fn, "w") as h:
+                g = h.create_group("1.1")
+                g.attrs["nframes"] = len(terns); g.attrs["shape0"] = shp[0]; g.attrs["shape1"] = shp[1]
+                g["row"] = np.concatenate(rows).astype(np.uint16); g["col"] = np.concatenate(cols).astype(np.uint16)
+                g["intensity"] = np.concatenate(vals).astype(np.float32); g["nnz"] = np.array(nnz, np.int32)
+            for thr in (0.0, 5.0):
+                for countall in (True, False):
+                    ss = sf.SparseScan(fn, "1.1")
+                    ss.cplabel(threshold=thr, countall=countall)
+                    case = {"kind": "sparsescan", "frames": [int(c) for c in codes], "threshold": thr, "countall": countall}
+                    off = 0
+                    pos = 0
+                    ok = True
+                    for k_, t in enumerate(terns):
+                        ii, jj = rows[k_], cols[k_]
+                        above = np.zeros(shp, bool)
+                        above[ii, jj] = vals[k_] > thr
+                        want_img, n_want = O.flood_components(above, True)
+                        lab = ss.labels[pos:pos + nnz[k_]]
+                        pos += nnz[k_]
+                        if ss.nlabels[k_] != n_want:
+                            sh.violation("SparseScan.cplabel:count", dict(case, frame=k_), {"nlabels": int(ss.nlabels[k_]), "expected": n_want}); ok = False; break
+                        if not np.array_equal(lab == 0, want_img[ii, jj] == 0):
+                            sh.violation("SparseScan.cplabel:background", dict(case, frame=k_), {"labels": lab}); ok = False; break
+                        if not np.array_equal(O.canon_labels(lab), O.canon_labels(want_img[ii, jj])):
+                            sh.violation("SparseScan.cplabel:partition", dict(case, frame=k_), {"labels": lab}); ok = False; break
+                        if n_want and (lab[lab > 0].min() != off + 1 or lab.max() != off + n_want):
+                            sh.violation("SparseScan.cplabel:label-range", dict(case, frame=k_), {"labels": lab, "offset": off}); ok = False; break
+                        if countall:
+                            off += n_want
+                    if ok and ss.total_labels != sum(int(x) for x in ss.nlabels):
+                        sh.violation("SparseScan.cplabel:total", case, {})
+                    sh.evaluations += 1
+                    sh.nontrivial += 1
+        sh.sample(case, limit=1)
+    finally:
+        shutil.rmtree(wd, ignore_errors=True)
+    return sh
+
+
 def run_shard(desc):
+    if desc[0] == "sparsescan":
+        return _run_sparsescan(desc)
     if desc[0] == "sched":
         return _run_sched(desc)
     if desc[0] == "dense":
@@ -399,6 +466,10 @@ def replay(case):
     from ImageD11 import cImageD11 as cI, sparseframe as sf, labelimage
     import io
     sh = Shard()
+    if case["kind"] == "sparsescan":
+        r = _run_sparsescan(("sparsescan", "thorough"))
+        v = [x for x in r.violations if x["case"]["frames"] == case["frames"] and x["case"]["threshold"] == case["threshold"] and x["case"]["countall"] == case["countall"]]
+        return (not v), {"violations": v[:2]}
     if case["kind"] == "sched":
         from vt.vrt import VRT, check_schedule_independence
         V = VRT()
